@@ -210,13 +210,30 @@ func (e *Exec) scenarioShape(path string, t types.Type, a string) ([]altFn, bool
 					continue
 				}
 				p := strings.SplitN(spec, ":", 2)
+				// "a:object+p": the type also has a property p, a number with a minimum
+				props := strings.Split(p[1], "+")
+				p[1] = props[0]
+				props = props[1:]
 				var tl []Val
 				for _, tn := range strings.Split(p[1], ",") {
 					tl = append(tl, lit(strings.TrimSpace(tn)))
 				}
 				ar := s.alloc(&Agg{Elems: tl})
 				delete(s.Fresh, ar.Cell)
-				pm := s.alloc(&MapAgg{Tag: fmt.Sprintf("%s[%d].Properties", path, len(els))})
+				pmAgg := &MapAgg{Tag: fmt.Sprintf("%s[%d].Properties", path, len(els))}
+				for _, pn := range props {
+					pn = strings.TrimSpace(pn)
+					mn := s.alloc(mkVar(fmt.Sprintf("%s[%d].%s.min", path, len(els), pn), SReal))
+					delete(s.Fresh, mn.Cell)
+					nar := s.alloc(&Agg{Elems: []Val{lit("number")}})
+					delete(s.Fresh, nar.Cell)
+					pt := s.alloc(mkStruct(stT, map[string]Val{"Type": SliceV{Arr: nar, Len_: 1, Cap: 1}, "Minimum": mn}))
+					delete(s.Fresh, pt.Cell)
+					s.CellTypes[pt.Cell] = stT
+					pmAgg.Keys = append(pmAgg.Keys, lit(pn))
+					pmAgg.Vals = append(pmAgg.Vals, pt)
+				}
+				pm := s.alloc(pmAgg)
 				delete(s.Fresh, pm.Cell)
 				tr := s.alloc(mkStruct(stT, map[string]Val{"Type": SliceV{Arr: ar, Len_: len(tl), Cap: len(tl)}, "Properties": MapV{Cell: pm.Cell}}))
 				delete(s.Fresh, tr.Cell)
